@@ -204,7 +204,8 @@ Qed.
 Definition evo_wf (s : evo_state) : Prop :=
   exists t, find_table (db_tables (e_db s)) (table_of (e_decl s)) = Some t
             /\ t_cols t = class_cols (e_decl s)
-            /\ table_exists (e_db s) (table_of (e_decl s) ++ s2l "_ORIGINAL") = false.
+            /\ table_exists (e_db s) (table_of (e_decl s) ++ s2l "_ORIGINAL") = false
+            /\ sqlite_accepts (e_decl s) = true.
 
 Definition the_table (s : evo_state) : option table :=
   find_table (db_tables (e_db s)) (table_of (e_decl s)).
@@ -252,7 +253,7 @@ Theorem evo_step_ok : forall s op t, evo_wf s -> op_ok op = true -> the_table s 
   /\ exists t', the_table (fst (evo_step s op)) = Some t'
        /\ forall x, In x (t_cols t) -> In x (t_cols t') -> cells_kept t t' x.
 Proof.
-  intros s op t (t0 & F & C & O) Hok Ht. unfold the_table in Ht. rewrite F in Ht. inversion Ht; subst t0. clear Ht.
+  intros s op t (t0 & F & C & O & SA) Hok Ht. unfold the_table in Ht. rewrite F in Ht. inversion Ht; subst t0. clear Ht.
   assert (TE : table_exists (e_db s) (table_of (e_decl s)) = true) by (unfold table_exists; rewrite F; reflexivity).
   destruct op as [c|n]; unfold evo_step.
   - (* addColumn *)
@@ -267,8 +268,12 @@ Proof.
     split; [reflexivity|]. split.
     + exists (f t). cbn [e_decl e_db db_tables]. rewrite table_of_set_cols. split; [exact F'|]. split.
       * cbn [f t_cols]. rewrite C, class_cols_set_cols, map_app. reflexivity.
-      * rewrite table_exists_alt in O |- *. cbn [db_tables]. unfold map_table.
-        rewrite exists_map_table; [exact O|]. intros x E. apply str_eqb_eq in E. cbn. congruence.
+      * split.
+        -- rewrite table_exists_alt in O |- *. cbn [db_tables]. unfold map_table.
+           rewrite exists_map_table; [exact O|]. intros x E. apply str_eqb_eq in E. cbn. congruence.
+        -- unfold sqlite_accepts in *. cbn [set_cols d_cols]. rewrite forallb_app, SA. cbn [forallb].
+           unfold sqlite_add_ok in Hok. apply andb_true_iff in Hok. destruct Hok as [Hok H4].
+           apply andb_true_iff in Hok. destruct Hok as [_ H3]. rewrite H3, H4. reflexivity.
     + exists (f t). unfold the_table. cbn [e_decl e_db db_tables]. rewrite table_of_set_cols.
       split; [exact F'|]. intros x Hx _. unfold cells_kept. cbn [f t_cols t_rows]. rewrite map_map.
       apply map_ext. intro r. apply cell_add. exact Hx.
@@ -281,7 +286,10 @@ Proof.
       destruct Hx as [Hx|Hx]; [left; exact Hx|right].
       apply in_map_iff in Hx. destruct Hx as [c0 [E Hc]]. apply filter_In in Hc. destruct Hc as [Hc _].
       apply in_map_iff. exists c0. split; assumption. }
-    rewrite Sub. cbn [fst snd].
+    assert (SA' : sqlite_accepts dc' = true).
+    { unfold sqlite_accepts in *. unfold dc'. cbn [set_cols d_cols]. apply forallb_forall. intros x Hx.
+      apply filter_In in Hx. destruct Hx as [Hx _]. rewrite forallb_forall in SA. apply SA. exact Hx. }
+    rewrite SA'. cbn [negb]. rewrite Sub. cbn [fst snd].
     set (f := fun t1 : table => {| t_name := table_of (e_decl s); t_cols := class_cols dc';
                                    t_rows := map (project (t_cols t1) (class_cols dc')) (t_rows t1) |}).
     assert (F' : find_table (map_table (e_db s) (table_of (e_decl s)) f) (table_of (e_decl s)) = Some (f t)).
@@ -289,7 +297,7 @@ Proof.
       intros x E. apply str_eqb_eq in E. cbn. congruence. }
     split; [reflexivity|]. split.
     + exists (f t). cbn [e_decl e_db db_tables]. change (table_of dc') with (table_of (e_decl s)).
-      split; [exact F'|]. split; [reflexivity|].
+      split; [exact F'|]. split; [reflexivity|]. split; [|exact SA'].
       rewrite table_exists_alt in O |- *. cbn [db_tables]. unfold map_table.
       rewrite exists_map_table; [exact O|]. intros x E. apply str_eqb_eq in E. cbn. congruence.
     + exists (f t). unfold the_table. cbn [e_decl e_db db_tables]. change (table_of dc') with (table_of (e_decl s)).
@@ -313,7 +321,7 @@ Theorem evo_run_ok : forall ops s t, evo_wf s -> forallb op_ok ops = true -> the
 Proof.
   induction ops as [|op ops IH]; intros s t W Hok Ht.
   - cbn. split; [reflexivity|]. split; [exact W|]. exists t. split; [exact Ht|].
-    destruct W as (t0 & F & C & _). unfold the_table in Ht. rewrite F in Ht. inversion Ht; subst.
+    destruct W as (t0 & F & C & _ & _). unfold the_table in Ht. rewrite F in Ht. inversion Ht; subst.
     split; [exact C|]. intros. reflexivity.
   - cbn [forallb] in Hok. apply andb_true_iff in Hok. destruct Hok as [Hop Hops].
     destruct (evo_step_ok s op t W Hop Ht) as (E1 & W1 & t1 & T1 & K1).
@@ -323,7 +331,7 @@ Proof.
     split; [reflexivity|]. split; [exact W2|]. exists t2. split; [exact T2|]. split; [exact C2|].
     cbn [kept]. rewrite ES. cbn [fst]. intros x Hx [Hk1 Hk2]. unfold cells_kept in *.
     assert (Hx1 : In x (t_cols t1)).
-    { destruct W1 as (t1' & F1 & C1 & _). unfold the_table in T1. rewrite F1 in T1. inversion T1; subst.
+    { destruct W1 as (t1' & F1 & C1 & _ & _). unfold the_table in T1. rewrite F1 in T1. inversion T1; subst.
       rewrite C1. exact Hk1. }
     rewrite (K2 x Hx1 Hk2). apply K1; assumption.
 Qed.
